@@ -8,6 +8,7 @@
 From Coq Require Import ZArith List Bool Lia.
 Import ListNotations.
 From Mds Require Import Gen.QueueIdx Queue.QueueModel Queue.QueueSpec Queue.QueueProofs.
+From Mds Require Slice.SliceUtilModel Slice.SliceUtilProofsInt.
 Local Open Scope Z_scope.
 
 Definition int64 (z : Z) : Prop := - 9223372036854775808 <= z < 9223372036854775808.
@@ -180,6 +181,27 @@ Proof.
   destruct (slice_empty (n q)); [reflexivity|].
   destruct (of_opt (make T zero (slice_buflen (n q))) PMakeLen); cbn [bind]; try reflexivity.
   apply slice_loop_width; [exact HB|]. unfold cap_bound in *. lia.
+Qed.
+
+(* Inside slice.Rotate the model computes in Z at both widths.  The C17 slice has the 64-bit
+   re-statement of Rotate ([rotate_impl64]: wrap-around after every + in sliceCheck and in the
+   cycle-chasing loop) and proves it equal to [rotate_impl] below 2^62 elements; so the Rotate call
+   that Add/Push make in a state satisfying the invariant -- with the offset computed at 64 bits --
+   returns what the model's call returns.  (At exactly 2^62 slots C17's bound is strict; hence <.) *)
+Theorem rotate_call_width : forall q, inv T q -> zlen T (vs q) < cap_bound ->
+  SliceUtilProofsInt.rotate_impl64 (vs q) (wrap64 (add_rot_k (head q)))
+    = SliceUtilModel.rotate_impl (vs q) (idw (add_rot_k (head q))) /\
+  SliceUtilProofsInt.rotate_impl64 (vs q) (wrap64 (push_rot_k (head q)))
+    = SliceUtilModel.rotate_impl (vs q) (idw (push_rot_k (head q))).
+Proof.
+  intros q (Hn & Hh0 & Hh & He) HB. unfold add_rot_k, push_rot_k, idw, cap_bound in *.
+  rewrite (wrap64_id (- head q)) by (unfold int64; lia).
+  assert (E : SliceUtilProofsInt.rotate_impl64 (vs q) (- head q) = SliceUtilModel.rotate_impl (vs q) (- head q)).
+  { apply SliceUtilProofsInt.rotate_impl64_eq.
+    - unfold SliceUtilProofsInt.int64. rewrite SliceUtilProofsInt.pow63. lia.
+    - unfold SliceUtilProofsInt.len62. rewrite SliceUtilProofsInt.pow62.
+      change (SliceUtilModel.zlen (vs q)) with (zlen T (vs q)). lia. }
+  split; exact E.
 Qed.
 
 (* one operation: the 64-bit model and the unbounded model compute the same result *)
